@@ -251,6 +251,7 @@ pub fn minimize(d: &Dfa) -> Dfa {
 }
 
 impl Dfa {
+    #[allow(dead_code)]
     pub fn accepts(&self, s: &str) -> bool {
         let mut cur = self.start;
         for ch in s.chars() {
